@@ -40,7 +40,11 @@ def coding_cases(draw, tier, fast=None, vt=None, message=None, force_table=False
     if options == "after_failure":
         case["after_failure"] = True
     if options in ("np_start", "all", "dtype"):
-        case["np_start"] = True  # the start vertex as a numpy integer (what obtain_vertices / where() hand out)
+        # the start vertex as a numpy integer (what obtain_vertices / where() hand out), also of a narrow type
+        case["np_start"] = draw(st.sampled_from(["int64", "int64", "int32", "uint8", "int16"]))
+        case["np_lengths"] = True  # bit_length / vt_length as numpy integers, too
+    if options in ("dtype", "layout") and table is not None:
+        case["table_dtype"] = draw(st.sampled_from(["int64", "float64", "int8", "float32"]))
     if options == "dtype":
         case["layout"] = draw(st.sampled_from(["int32", "int16"]))
         case["msg_dtype"] = draw(st.sampled_from(["int8", "uint8", "int32", "list"]))
@@ -50,7 +54,14 @@ def coding_cases(draw, tier, fast=None, vt=None, message=None, force_table=False
 def start_of(case):
     import numpy
     start = case["graph"]["start"]
-    return numpy.int64(start) if case.get("np_start") else start
+    if not case.get("np_start"):
+        return start
+    kind = case["np_start"] if isinstance(case["np_start"], str) else "int64"
+    if kind == "uint8" and start > 255:
+        kind = "uint16" if start < 65536 else "int64"
+    if kind == "int16" and start > 32767:
+        kind = "int32"
+    return getattr(numpy, kind)(start)
 
 
 def budget_for(case):
@@ -69,6 +80,8 @@ def run_encode(case, accessor=None, budget=None, **extra):
     table = gens.table_of(case["table"])
     if table is not None and case.get("layout"):
         table = gens.relayout(table, case["layout"])
+    if table is not None and case.get("table_dtype"):
+        table = table.astype(case["table_dtype"])  # permutation rows held in another numeric type (e.g. loadtxt)
     if case.get("after_failure"):
         # a call that may fail part-way (fast mode stops at an out-degree-3 vertex) precedes the real one
         counter.budget += 4096
@@ -101,9 +114,19 @@ def run_decode(case, strand, check=None, bit_length=None, accessor=None, **extra
     table = gens.table_of(case["table"])
     if table is not None and case.get("layout"):
         table = gens.relayout(table, case["layout"])
+    if table is not None and case.get("table_dtype"):
+        table = table.astype(case["table_dtype"])
+    if bit_length is None:
+        bit_length = len(case["bits"])
+    if case.get("np_lengths"):
+        import numpy
+        bit_length = numpy.int64(bit_length)
+    if case.get("np_str"):
+        import numpy
+        strand = numpy.str_(strand)
     try:
         return lib_call(dsw.decode, dna_sequence=strand,
-                        bit_length=len(case["bits"]) if bit_length is None else bit_length, accessor=acc,
+                        bit_length=bit_length, accessor=acc,
                         start_index=start_of(case), is_faster=case["fast"], vt_check=check,
                         shuffles=table, verbose=bool(case.get("verbose")), **extra)
     except LookupBudgetExceeded:
@@ -133,7 +156,7 @@ def walk_classes(case, strand):
         labels.append("table_at_deg2or3")
     if case["vt"]:
         labels.append("vt")
-    for option in ("verbose", "need_path", "layout", "msg_dtype", "after_failure", "np_start"):
+    for option in ("verbose", "need_path", "layout", "msg_dtype", "after_failure", "np_start", "table_dtype"):
         if case.get(option):
             labels.append("opt:" + option)
     if not strand:
